@@ -309,6 +309,9 @@ def psfphot_pairs(seed):
         'iter_new': lambda: IterativePSFPhotometry(CircularGaussianPRF(fwhm=3.2), (7, 7), DAOStarFinder(30, 3.2), localbkg_estimator=LocalBackground(6, 10), aperture_radius=4, maxiters=1 + seed % 2, mode='new'),
         'iter_all': lambda: IterativePSFPhotometry(CircularGaussianPRF(fwhm=3.2), (7, 7), DAOStarFinder(30, 3.2), grouper=SourceGrouper(8), localbkg_estimator=LocalBackground(6, 10), aperture_radius=4, maxiters=2, mode='all'),
     }
+    # one star per pass (brightest=1): four productive iterations; the subtraction window of the loop (sub_shape) differs from the model's box
+    kinds['iter_new_one_per_pass'] = lambda: IterativePSFPhotometry(CircularGaussianPRF(fwhm=3.2), (7, 7), DAOStarFinder(30, 3.2, brightest=1), aperture_radius=4,
+                                                                     maxiters=4, mode='new', sub_shape=(5, 5))
     def _free():
         mfree = CircularGaussianPRF(fwhm=2.7); mfree.fwhm.fixed = False      # the width is fitted per source (the scene has 3.2)
         return PSFPhotometry(mfree, (7, 7), grouper=SourceGrouper(8), localbkg_estimator=LocalBackground(6, 10), aperture_radius=4)
@@ -321,8 +324,8 @@ def psfphot_pairs(seed):
                 continue
             sig = {'obj': kind, 'order': list(order)}
             # psf_shape: a small stamp, or one larger than the image along one / both axes (full-wing subtraction on a small frame)
-            ps = [(9, 9), (61, 57), (9, 53), (47, 9)][(seed + len(kind) + sum(order)) % 4]
-            sig['psf_shape'] = list(ps)
+            ps = [(9, 9), (61, 57), (9, 53), (47, 9), None][(seed + len(kind) + sum(order)) % 5]      # None: the model's own bounding box
+            sig['psf_shape'] = list(ps) if ps else None
             for j, inc in enumerate(order):
                 mi = ph.make_model_image(shape, psf_shape=ps, include_localbkg=inc)
                 ri = ph.make_residual_image(data, psf_shape=ps, include_localbkg=inc)
